@@ -27,6 +27,22 @@ func StartModelDriverAt(driverBin string) *vlib.Driver {
 	return d
 }
 
+// StartDriverAt starts the Lean driver module `mod` (executable o4d_<mod>) if it was built.
+func StartDriverAt(driverBin, mod string) *vlib.Driver {
+	if driverBin == "" {
+		return nil
+	}
+	path := filepath.Join(driverBin, "o4d_"+mod)
+	if _, err := os.Stat(path); err != nil {
+		return nil
+	}
+	d, err := vlib.StartDriver(path, mod)
+	if err != nil {
+		return nil
+	}
+	return d
+}
+
 // Model is the Lean model (driver o4data, real link keys) of the receiver of both directions of
 // one connection. All methods are no-ops on a nil *Model (driver not available).
 type Model struct {
